@@ -44,6 +44,16 @@ def build_results(case):
 
 def sub_merge(case):
     rs = build_results(case)
+    cp = case.get("copies")
+    if cp and len(rs) > 1:
+        # repeated runs that produced identical results - except that one of them may carry an extra key
+        import copy as _copy
+        rs = [_copy.deepcopy(rs[0]) for _ in rs]
+        k = int(cp["pos"]) % len(rs)
+        if cp["extra"] == "array":
+            rs[k].add_np_array("extra_array", np.arange(3, dtype=float))
+        elif cp["extra"] == "stat":
+            rs[k].add_stats({"extra_stat": 1.0})
     snaps = [snapshot.snapshot(r) for r in rs]
     n = len(rs)
     keys_equal = all(set(a.stats) == set(b.stats) and set(a.np_arrays) == set(b.np_arrays) for a, b in zip(rs, rs[1:]))
@@ -167,6 +177,10 @@ def sub_table(case):
         files.append(p)
         labels.append(p if case["use_filenames"] else os.path.basename(r.info["est_name"]))
     table = os.path.join(d, "table.csv")
+    if case["merge"] and case.get("dup_file") and len(files) > 1:
+        # the same result file listed twice counts twice in the merge
+        files = files + [files[0]]
+        rs = rs + [rs[0]]
     argv = files + ["--save_table", table, "--no_warnings", "--silent"]
     if case["use_filenames"]:
         argv.append("--use_filenames")
@@ -273,11 +287,13 @@ def st_results(min_n, max_n, table=False):
     return base
 
 
-st_merge = st.fixed_dictionaries({"results": st_results(1, 8), "as_tuple": st.booleans()})
+st_merge = st.fixed_dictionaries({"results": st_results(1, 8), "as_tuple": st.booleans(),
+                                  "copies": st.one_of(st.none(), st.none(), st.none(), st.fixed_dictionaries({
+                                      "extra": st.sampled_from([None, "array", "stat"]), "pos": st.integers(0, 7)}))})
 st_table = st.fixed_dictionaries({
     "results": st_results(1, 5), "use_filenames": st.booleans(), "merge": st.booleans(), "ignore_title": st.just(True),
     "dup_labels": st.booleans(), "est_names": st.lists(st.sampled_from(["est.txt", "a.tum", "traj", "ORB_SLAM", "x y"]), min_size=1, max_size=3),
-    "est_dir": st.sampled_from(["", "/data/run1", "rel/dir"]), "rev_names": st.booleans()})
+    "est_dir": st.sampled_from(["", "/data/run1", "rel/dir"]), "rev_names": st.booleans(), "dup_file": st.sampled_from([False, False, True])})
 
 
 def _nt(case):
